@@ -453,6 +453,26 @@ class PathEnum:
                     outs += self.value_paths(value.body if t else value.orelse, q, fr)
             return outs
         if isinstance(value, ast.Call):
+            # arguments are evaluated before the call: an argument that is itself an inlinable call of a package FUNCTION (its effects
+            # -- stores into the objects it is given -- happen first) is hoisted into a temporary before the callee is entered
+            if self.resolver(value, fr, p) is not None and fr.depth < self.max_depth:
+                for ai, a in enumerate(value.args):
+                    if isinstance(a, ast.Call) and isinstance(a.func, ast.Name) and self.resolver(a, fr, p) is not None:
+                        outs = []
+                        for q, ret, rfr in self._inline(a, p, fr):
+                            if q.exit is not None:
+                                outs.append((q, _UNKNOWN, fr))
+                                continue
+                            tmp = '__arg%d_%d' % (len(q.ev), ai)
+                            tn = ast.Name(id=tmp, ctx=ast.Store())
+                            asg = ast.Assign(targets=[tn], value=a)
+                            ast.copy_location(asg, value)
+                            q.ev.append(Ev('assign', asg, fr, tn, (ret, rfr)))
+                            v2 = ast.Call(func=value.func, args=list(value.args), keywords=value.keywords)
+                            v2.args[ai] = ast.Name(id=tmp, ctx=ast.Load())
+                            ast.copy_location(v2, value)
+                            outs += self.value_paths(v2, q, fr)
+                        return outs
             inl = self._inline(value, p, fr)
             if inl is not None:
                 return inl
